@@ -211,7 +211,7 @@ func selected(dbName, collName string) bool {
 }
 
 func runC13(tier string) *vf.Run {
-	run := vf.NewRun("C13", tier, "fault_enumeration")
+	run := vf.NewRun("C13", tier, "exploration")
 	run.Rule = "case = generated start catalog (1-4 databases incl. unselected and tombstoned ones; collections Created/Creating/Dropping/Dropped/tombstoned, older incarnations below newer ones, unselected names, partitions in all states) x one primary catalog write of kind K performed at step boundary B of CollectionReader.StartRead (9 boundaries x 14 kinds: create, flip Creating->Created, add partition, drop, re-create same name, create->tombstone, create left in Creating, create+partition, drop partition, new database, two new databases, flip+drop+re-create, default-like partition name, create in unselected) plus 0-2 further writes at random boundaries and an optional pause at a boundary; thorough enumerates every (B,K) for 6 start catalogs, quick takes every boundary x {create, add partition} and a seeded spread of the rest. Non-trivial = the primary write was executed at its boundary and the sentinel was delivered by the watch; distinct by (B, K, extra writes, catalog shape)."
 	run.Assumptions = []string{
 		"the catalog writer is the harness' rendering of rootcoord's write order (collection key in state Creating, then fields and partitions, then state Created; drop = state Dropping, later tombstones for partitions, fields and finally the collection key; create->tombstone for a failed create), taken from etcd_op.go and etcd_op_test.go",
